@@ -51,6 +51,7 @@ import (
 	"log"
 	"os"
 	"reflect"
+	"regexp"
 	"runtime"
 	"slices"
 	"strings"
@@ -113,6 +114,10 @@ type interpreter struct {
 	ifCount      map[*frame]map[*ssa.If]int
 	ghost        map[string]value
 	callDepth    int
+	regexps      map[*value]*regexp.Regexp
+	initFnDone   map[*ssa.Function]bool
+	phaseADepth  int
+	pendingInits []pendingInit
 }
 
 type deferred struct {
@@ -706,6 +711,9 @@ func doRecover(caller *frame) value {
 		caller != nil && !caller.panicking &&
 		caller.caller != nil && caller.caller.panicking {
 		caller.caller.panicking = false
+		if caller.i.res != nil {
+			caller.i.res.panicDepth = 0
+		}
 		p := caller.caller.panic
 		caller.caller.panic = nil
 
